@@ -236,6 +236,9 @@ func (s *Script) textUsing(upto int, using []string, inLoop string) string {
 				continue
 			}
 			keep := false
+			if i := strings.Index(tag, "@"); i >= 0 {
+				tag = tag[:i] // the property attribution of a label is not part of its name
+			}
 			for _, u := range using {
 				if tag == u || strings.HasSuffix(tag, "."+u) {
 					keep = true
@@ -644,6 +647,16 @@ func (s *Script) subS(a, b string) string {
 		_, n, ok := bvLitVal(la)
 		if ok {
 			return bvLit(0, n)
+		}
+	}
+	// (x + c) - x == c
+	ra := s.resolve(a)
+	if toks := splitApp(ra); len(toks) == 3 && toks[0] == "bvadd" {
+		if toks[1] == b || s.resolve(toks[1]) == s.resolve(b) {
+			return toks[2]
+		}
+		if toks[2] == b || s.resolve(toks[2]) == s.resolve(b) {
+			return toks[1]
 		}
 	}
 	return app("bvsub", a, b)
